@@ -181,6 +181,14 @@ impl Exec {
                         if ctx.poisoned {
                             self.viol("C05", "poisoned-commit", "commit() of a poisoned transaction succeeded".into());
                         }
+                        if self.io_error_seen && self.mode == Mode::Faulty {
+                            // "later write attempts are refused until the database is reopened"
+                            self.viol(
+                                "C08",
+                                "commit-after-error",
+                                format!("commit() (durable: {}) succeeded although a storage error had already been reported by this database instance", ctx.durable),
+                            );
+                        }
                         self.disk.marker(Marker::CommitAcked { v: v as u32, durable: ctx.durable });
                         self.cur = v;
                         self.stats.commits += 1;
